@@ -223,7 +223,31 @@ class Sched:
         self.locks.setdefault(inode, []).append([start, end, pid])
         self.event("lock", (inode, start, length))
 
-    # ------------------------------------------------------------- paths
+    # ------------------------------------------------------- flock model
+    # BSD locks belong to the open file description and do not interact with
+    # POSIX record locks (Linux)
+    def flock(self, fd, cmd):
+        pid = self.pid()
+        if pid is None:
+            return real_fcntl.flock(fd, cmd)
+        inode = real_os.fstat(fd).st_ino
+        held = self.__dict__.setdefault("flocks", {}).setdefault(inode, {})
+        op = cmd & ~real_fcntl.LOCK_NB
+        if op == real_fcntl.LOCK_UN:
+            self.yield_point("flock(UN)")
+            held.pop(fd, None)
+            return
+        if op != real_fcntl.LOCK_EX:
+            raise HarnessError("flock model: only exclusive locks")
+        self.yield_point("flock(EX)")
+        if any(f != fd for f in held):
+            if cmd & real_fcntl.LOCK_NB:
+                raise BlockingIOError(11, "Resource temporarily unavailable")
+            self.yield_point("flock(EX) blocked",
+                             blocked=lambda: not any(f != fd for f in held))
+        held[fd] = pid
+
+
     def tr(self, path):
         if isinstance(path, str) and (path.startswith("/run")
                                       or path.startswith("/sys/fs/bpf")):
@@ -282,6 +306,7 @@ class OsProxy:
             pid, inode = own
             self._s.locks[inode] = [x for x in self._s.locks.get(inode, [])
                                     if x[2] != pid]
+            self._s.__dict__.get("flocks", {}).get(inode, {}).pop(fd, None)
         return real_os.close(fd)
 
     def write(self, fd, data):
@@ -310,6 +335,9 @@ class FcntlProxy:
 
     def lockf(self, *a, **kw):
         return self._s.lockf(*a, **kw)
+
+    def flock(self, fd, cmd):
+        return self._s.flock(fd, cmd)
 
 
 class TempProxy:
